@@ -109,6 +109,29 @@ CHECKS = {
           "Byte-identical results are checked by running one shared corpus (sub-sampled C01/C03/C04/C14/C15/C16/C18 families) under 8 CPU masks and 4 build variants against the model; reported flags must be a subset "
           "of /proc/cpuinfo and AES-256-GCM availability must equal pclmul & aesni & avx."),
     note=NOTE_COMMON + "translator (tools/c2lean_pickers.py, regex over gcc -E output) and the hand-stated ISA of the two assembly implementations are trusted; outputs per configuration are sampled, not proved."),
+ "C05": dict(
+    category="proof", design_ref="DESIGN.md §3.5",
+    technique="Lean 4 theorems on the wrapper logic (failure iff all-zero output via the branch-free accumulate trick, blocklist loop exactness and soundness, clamp / top-bit lemmas, kx cross-equality given DH commutativity) + differential correspondence against the executable RFC 7748 ladder on every ladder backend, with both sides of every exchange computed",
+    text=("crypto_scalarmult_curve25519's return-code logic, ref10's small-order blocklist loop, crypto_kx (incl. its NULL-pointer aliasing) and the box/kx seed and beforenm derivations are modelled as written with the ladder, "
+          "BLAKE2b, SHA-512 and H-cores as parameters; Lean proves the decision logic for all inputs. That the ladder is RFC 7748 and that Diffie-Hellman commutes needs a formalised curve group law and is translation-validated: the "
+          "implementation (sandy2x AVX assembly, ref10 51-bit and 25.5-bit limbs, portable build) is compared with the executable specification on low-order / non-canonical / twist / limb-structured points, all 32 clamp-bit patterns, "
+          "and on both sides of every key exchange and box."),
+    note=NOTE_COMMON + "group law, DH commutativity and field arithmetic are NOT proved (translation validation); kx_cross carries DH commutativity as an explicit hypothesis."),
+ "C06": dict(
+    category="proof", design_ref="DESIGN.md §3.6",
+    technique="Lean 4 theorems on the verifier's decision logic and the canonical-S / canonical-A byte loops (= le < L / y < p), sign/open forms, abstract completeness + differential correspondence against the executable RFC 8032 specification with equation-satisfying forgeries",
+    text=("The strict verifier is modelled branch by branch over an abstract group interface, the canonicity byte loops with C's widths; Lean proves they are exact, that the verifier accepts iff all conditions hold, the combined/open forms, "
+          "and completeness over any group satisfying the module laws. The group law, SHA-512 and the concrete curve are translation-validated: signing and verification are compared with the executable specification for every message "
+          "length 0..300, every bit flip of signature and key, S + kL, high-bit S, all 8 torsion points and their non-canonical aliases as A and as R, torsion-shifted R and A with matching S (forgeries that satisfy the equation so that "
+          "exactly one check must stop them), pre-hashed multi-part signing, and key conversion."),
+    note=NOTE_COMMON + "point arithmetic and hashing are translation-validated, not proved."),
+ "C07": dict(
+    category="proof", design_ref="DESIGN.md §3.7",
+    technique="Lean 4 theorems on the scalar wrappers (64-byte add/sub with the constant L, then reduce = arithmetic mod L), return-code logic, expand_message_xmd = RFC 9380 for contexts <= 255 bytes and the proved deviation above + differential correspondence against executable RFC 8032 / 9380 / 9496 specifications over naturals",
+    text=("Scalar negate/complement/add/sub/invert, the valid-point and scalarmult return-code logic and the hash-to-field expander are modelled as written (reduce/mul/invert and point arithmetic as parameters); Lean proves the scalar "
+          "identities mod L for the quantified inputs and the expander's equality with RFC 9380 for contexts up to 255 bytes. Point arithmetic, the sc25519 limb code and the Elligator/Ristretto maps are translation-validated on every "
+          "structured encoding named in the property. Two genuine deviations are recorded as known findings (not repairable without editing the existing tests): the weak main-subgroup test and the oversize-context expander."),
+    note=NOTE_COMMON + "known findings C07-main-subgroup and C07-oversize-dst are reported as KNOWN-FINDING on every run (known_findings.json)."),
 }
 
 NOT_YET = {}
